@@ -464,7 +464,7 @@ func runC21() int {
 	}
 	wg.Wait()
 	exhaustive := !stopped.Load()
-	if exhaustive && r.ViolationCount() == 0 && !r.HasEngineError() {
+	if exhaustive && !r.HasEngineError() {
 		for name, ls := range st.perListing {
 			if ls.MultiPage == 0 || ls.MaxPages < 3 {
 				r.EngineError(fmt.Sprintf("vacuous: listing %s never needed three pages (max %d)", name, ls.MaxPages))
